@@ -279,7 +279,7 @@ func c04Run(b *core.B) {
 		"Next.Name", "Next.Label()", "Next.PLabel()", "Next.Next.Name", "Next.Next.PLabel()", "Self().Name", "PSelf().Name", "Self().Self().Label()", "PSelf().Next.PLabel()", "Tags[0]", "Tags[5]", "M[\"k\"]", "M[\"zz\"]", "Next.Tags[0]", "Strs()[0]", "Any.Name", "Name.Name", "Len()", "String()", "Format(\"2006\")", "HTML()", "Next()", "A()", "Z()", "Z().x", "T", "T.Name"}
 	for _, r := range kn {
 		for _, m := range members {
-			if (r == "v_embeds_nil" || r == "v_reflect_value_false") && strings.Contains(m, "(") {
+			if (r == "v_embeds_nil" || r == "v_reflect_value_false" || r == "v_embeds_nil_stringer" || r == "v_embeds_nil_htmler") && strings.Contains(m, "(") {
 				// (reflect.Value's own methods panic on the wrong kind, e.g. Len() of a bool)
 				// a method promoted from a nil embedded pointer panics in Go itself
 				// when called: that is the data's doing, not the engine's
